@@ -196,6 +196,16 @@ pub fn solve_milp_lp_problem_with(
                 // working point (possibly fractional and infeasible), not a solution
                 Status::Interrupted => return Err(SolverError::LimitReached),
             };
+            // never hand back a point that is not made of numbers
+            if !s.objective().is_finite()
+                || microlp_vars
+                    .iter()
+                    .any(|v| !s.var_value_raw(*v).is_finite())
+            {
+                return Err(SolverError::Other(
+                    "MicroLP returned a non-finite solution".to_string(),
+                ));
+            }
             let assignment = microlp_vars
                 .iter()
                 .zip(variables)
